@@ -226,6 +226,67 @@ let suite_appw (t : toks) : string =
   | (Err _ | Panic _) as r -> "WERR " ^ show_res_err r
   | Ok (segs, _) -> "W " ^ hex_of_bytes (flat segs)
 
-let suites = [ ("rt", suite_rt); ("rd", suite_rd); ("ard", suite_ard); ("sk", suite_sk);
+(* urt <contig|linked|linked_zc> <slack> <rest hex> <n> v1 .. vn : the unchecked binary codec *)
+let suite_urt (t : toks) : string =
+  let bk = next t in
+  let slack = next_int t in
+  let rest = bytes_of_hex (next t) in
+  let n = next_int t in
+  let rec rep n = if n <= 0 then [] else let v = parse_val t in v :: rep (n - 1) in
+  let vs = rep n in
+  match len_vals PBinary vs w0 with
+  | (Err _ | Panic _) as r -> "WERR " ^ show_res_err r
+  | Ok (size, _) ->
+    let cap = Z.add size (z_of_int slack) in
+    let (zc, st0) = (match bk with
+        | "contig" -> (false, uw_contig cap)
+        | "linked" -> (false, uw_linked cap)
+        | "linked_zc" -> (true, uw_linked cap)
+        | s -> failwith ("bad buffer kind " ^ s)) in
+    (match uwrite_vals zc vs st0 with
+     | (Err _ | Panic _) as r -> "WERR " ^ show_res_err r
+     | Ok (segs, st) ->
+       let bytes = flat segs in
+       let b = Buffer.create 256 in
+       Buffer.add_string b (Printf.sprintf "W %s Z %s L %s I %s" (hex_of_bytes bytes) (string_of_z st.uw_zc)
+                              (string_of_z size) (string_of_z st.uw_idx));
+       let input = bytes @ rest in
+       let fuel = nat_of_int (List.length input + 2) in
+       let tys = List.map ttype_of vs in
+       (match uread_vals fuel tys { ubuf = input; uidx = O } with
+        | (Err _ | Panic _) as r -> Buffer.add_string b (" RERR " ^ show_res_err r)
+        | Ok (vs', s) ->
+          Buffer.add_string b " R";
+          List.iter (fun v -> Buffer.add_char b ' '; show_val b v) vs';
+          Buffer.add_string b (Printf.sprintf " REM %d" (List.length (urest s))));
+       Buffer.contents b)
+
+(* usk <ttype code> <hex> <next ttype code|-> : the iterative skipper after a field header *)
+let suite_usk (t : toks) : string =
+  let tyc = next_int t in
+  let ty = ttype_of_code tyc in
+  let input = bytes_of_hex (next t) in
+  let nx = next t in
+  let hdr = bytes_of_hex (Printf.sprintf "%02x0001" tyc) in
+  let all = hdr @ input in
+  let fuel = nat_of_int (List.length all + 4) in
+  match u_field_begin { ubuf = all; uidx = O } with
+  | (Err _ | Panic _) -> "BADCASE field header"
+  | Ok (_, s0) ->
+    (match u_skip fuel ty s0 with
+     | (Err _ | Panic _) as r -> show_res_err r
+     | Ok (n, s) ->
+       if nx = "-" then Printf.sprintf "ok %s REM %d" (string_of_z n) (List.length (urest s))
+       else
+         (match uread_val fuel (ttype_of_code (int_of_string nx)) s with
+          | (Err _ | Panic _) as r -> Printf.sprintf "ok %s NEXT %s" (string_of_z n) (show_res_err r)
+          | Ok (v, s2) ->
+            let b = Buffer.create 64 in
+            Buffer.add_string b (Printf.sprintf "ok %s NEXT " (string_of_z n));
+            show_val b v;
+            Buffer.add_string b (Printf.sprintf " REM %d" (List.length (urest s2)));
+            Buffer.contents b))
+
+let suites = [ ("urt", suite_urt); ("usk", suite_usk); ("rt", suite_rt); ("rd", suite_rd); ("ard", suite_ard); ("sk", suite_sk);
                ("msgw", suite_msgw); ("msgr", suite_msgr); ("spec", suite_spec); ("specmsg", suite_specmsg);
                ("appw", suite_appw) ]
